@@ -5,6 +5,7 @@ import (
 	"errors"
 	"fmt"
 	"sync"
+	"sync/atomic"
 	"time"
 
 	"github.com/ipfs/go-graphsync"
@@ -876,6 +877,7 @@ func (t *Transport) newDTChannel(chid datatransfer.ChannelID) *dtChannel {
 		t:         t,
 		channelID: chid,
 		opened:    make(chan graphsync.RequestID, 1),
+		cleaned:   make(chan struct{}),
 	}
 }
 
@@ -921,6 +923,10 @@ type dtChannel struct {
 	pendingExtensions  []graphsync.ExtensionData
 
 	opened chan graphsync.RequestID
+
+	// set / closed once the channel has been cleaned up (cleanup does not take lk)
+	cleanedUp atomic.Bool
+	cleaned   chan struct{}
 
 	optionsLk       sync.RWMutex
 	storeRegistered bool
@@ -996,6 +1002,11 @@ func (c *dtChannel) open(
 	select {
 	case <-ctx.Done():
 		return nil, ctx.Err()
+	case <-c.cleaned:
+		// The channel was cleaned up before the request was opened (the events
+		// handler refused it, or the channel ended meanwhile): nobody will
+		// report the request as opened
+		return nil, fmt.Errorf("%s: channel was cleaned up while opening graphsync request", chid)
 	case requestID := <-c.opened:
 		// Mark the channel as open and save the Graphsync request key
 		c.isOpen = true
@@ -1035,8 +1046,25 @@ func (c *dtChannel) gsReqOpened(requestID graphsync.RequestID, hookActions graph
 	// Save a mapping from the graphsync key to the channel ID so that
 	// subsequent graphsync callbacks are associated with this channel
 	c.t.requestIDToChannelID.set(requestID, false, c.channelID)
+	c.unmapIfCleanedUp(requestID)
 
+	// Never block the graphsync hook: if a request id that nobody waited for is
+	// still parked here (its opener's channel object was cleaned up meanwhile)
+	// it is stale - replace it
+	select {
+	case <-c.opened:
+	default:
+	}
 	c.opened <- requestID
+}
+
+// unmapIfCleanedUp removes the mapping of a graphsync request that was
+// registered while (or after) the channel was cleaned up, so that no callback
+// is routed to a channel that no longer exists.
+func (c *dtChannel) unmapIfCleanedUp(requestID graphsync.RequestID) {
+	if c.cleanedUp.Load() {
+		c.t.requestIDToChannelID.delete(requestID)
+	}
 }
 
 // gsDataRequestRcvd is called when the transport receives an incoming request
@@ -1069,6 +1097,7 @@ func (c *dtChannel) gsDataRequestRcvd(requestID graphsync.RequestID, hookActions
 	c.requestID = &requestID
 	log.Infow("incoming graphsync request", "peer", c.channelID.OtherParty(c.t.peerID), "graphsync request id", requestID, "data transfer channel id", c.channelID)
 	c.t.requestIDToChannelID.set(requestID, true, c.channelID)
+	c.unmapIfCleanedUp(requestID)
 
 	c.isOpen = true
 }
@@ -1204,8 +1233,17 @@ func (c *dtChannel) useStore(lsys ipld.LinkSystem) error {
 }
 
 func (c *dtChannel) cleanup() {
-	c.lk.Lock()
-	defer c.lk.Unlock()
+	// Note: cleanup does not take the channel lock. It is reachable from code
+	// that already holds it - the incoming request hook calling the events
+	// handler, which cleans the channel up on a cancel message - and from the
+	// channel state machine while such a hook waits for that state machine, so
+	// taking the lock here deadlocks. Nothing below touches the state the lock
+	// guards; a graphsync request registered by an operation that is still in
+	// flight is unmapped by that operation itself (see unmapIfCleanedUp).
+	if c.cleanedUp.CompareAndSwap(false, true) {
+		// wake up an open() that is still waiting for its request to be opened
+		close(c.cleaned)
+	}
 
 	log.Debugf("%s: cleaning up channel", c.channelID)
 
@@ -1314,6 +1352,14 @@ func (m *requestIDToChannelIDMap) set(key graphsync.RequestID, sending bool, chi
 	defer m.lk.Unlock()
 
 	m.m[key] = channelInfo{sending, chid}
+}
+
+// delete a single key
+func (m *requestIDToChannelIDMap) delete(key graphsync.RequestID) {
+	m.lk.Lock()
+	defer m.lk.Unlock()
+
+	delete(m.m, key)
 }
 
 // call f for each key / value in the map
